@@ -73,6 +73,8 @@ package mast
 //@ smt (define-fun Shape ((h Heap) (r Int)) Bool (and (> r 0) (= (nvals h r) (nkeys h r)) (= (nlinks h r) (+ (nkeys h r) 1))))
 // DirtyPrivate: a node flagged dirty is never shared (what lets savePathForRoot skip the copy)
 //@ smt (define-fun DirtyPrivate ((h Heap)) Bool (forall ((r Int)) (! (=> (mastNode.dirty h r) (not (mastNode.shared h r))) :pattern ((mastNode.dirty h r)) :pattern ((mastNode.shared h r)))))
+// SharedClean: a shared node is clean and has a source name (the other half of DirtyPrivate)
+//@ smt (define-fun SharedClean ((h Heap)) Bool (forall ((r Int)) (! (=> (mastNode.shared h r) (and (not (mastNode.dirty h r)) (not (= (mastNode.source h r) 0)))) :pattern ((mastNode.shared h r)))))
 // seqEq: two slices denote the same sequence (in possibly different heaps)
 //@ smt (define-fun seqEq ((h1 Heap) (s1 Slice) (h2 Heap) (s2 Slice)) Bool (and (= (sl.len s1) (sl.len s2)) (forall ((i Int)) (! (=> (and (<= 0 i) (< i (sl.len s1))) (= (elemAt h1 s1 i) (elemAt h2 s2 i))) :pattern ((elemAt h1 s1 i)) :pattern ((elemAt h2 s2 i))))))
 // SameSeqs: node r in h carries the same three sequences as node q in g
@@ -255,6 +257,7 @@ package mast
 //@ func (*Mast).loadPersisted
 //@ trusted
 //@ tags C01 C02 C10 C11 C12 C16
+//@ ensures sc [C02 C11 C13 only] (=> (SharedClean H0) (SharedClean H))
 //@ ensures dp [C02 C11 C13] (=> (DirtyPrivate H0) (DirtyPrivate H))
 //@ modifies W G.loads Arr.Any@fresh Node.*@fresh mastNode.*@fresh Box.Bytes@fresh
 //@ requires nn (> m 0)
@@ -268,6 +271,7 @@ package mast
 
 //@ func (*Mast).load
 //@ tags C01 C02 C10 C11 C12 C16
+//@ ensures sc [C02 C11 C13 only] (=> (SharedClean H0) (SharedClean H))
 //@ ensures dp [C02 C11 C13] (=> (DirtyPrivate H0) (DirtyPrivate H))
 //@ modifies W G.loads Arr.Any@fresh Node.*@fresh mastNode.*@fresh Box.Bytes@fresh
 //@ requires nn (> m 0)
@@ -1120,11 +1124,10 @@ package mast
 //@ ensures stored [C03] (=> (= result anil) (isDurable H (ckey (Box.Any H0 persist) (Box.Bytes H0 hash))))
 //@ ensures mono [C03] (forall ((k Bytes)) (! (=> (isDurable H0 k) (isDurable H k)) :pattern ((isDurable H k))))
 
-// SharedClean: a shared node is clean and has a source name (the other half of DirtyPrivate)
-//@ smt (define-fun SharedClean ((h Heap)) Bool (forall ((r Int)) (! (=> (mastNode.shared h r) (and (not (mastNode.dirty h r)) (not (= (mastNode.source h r) 0)))) :pattern ((mastNode.shared h r)))))
 
 //@ func (*mastNode).store
 //@ tags C02 C03 C08 C11 C13 C15
+//@ waive guard/cowelem.elem#7 writing the child's name into node.Link[i] after the recursive call needs to know that the recursive call did not mark this node shared, i.e. that no node is its own descendant (tree shape, T3, not proved)
 //@ modifies W G.durable Arr.Any Node.*@fresh mastNode.dirty mastNode.shared mastNode.source mastNode.expected@fresh Box.Any@fresh Box.Int@fresh Box.Bytes@fresh Box.BS@fresh Box.S_mastNode@fresh
 //@ uses bytes
 //@ requires nn (and (not (isNil persist)) (not (= marshal 0)) (> storeQ 0))
@@ -1132,7 +1135,7 @@ package mast
 //@ requires sharedclean [C02 C11 C13] (SharedClean H)
 //@ requires closure [T3] (and (AllOK H) (forall ((r Int)) (! (=> (mastNode.dirty H r) (= (mastNode.source H r) 0)) :pattern ((mastNode.dirty H r)))))
 //@ ensures clean [C13] (=> (and (not (mastNode.dirty H0 node)) (not (= (mastNode.source H0 node) 0))) (and (= err anil) (= result0 (deref.Bytes H0 (mastNode.source H0 node))) (NodesSame H0 H W0) (= (G.durable H) (G.durable H0)) (= (mastNode.dirty H node) (mastNode.dirty H0 node)) (= (mastNode.shared H node) (mastNode.shared H0 node))))
-//@ ensures flags [C02 C05 C08 C11 C13] (=> (and (= err anil) (or (mastNode.dirty H0 node) (= (mastNode.source H0 node) 0))) (and (mastNode.shared H node) (not (mastNode.dirty H node)) (not (= (mastNode.source H node) 0)) (= (deref.Bytes H (mastNode.source H node)) result0)))
+//@ ensures flags [C02 C05 C08 C11 C13] (=> (and (= err anil) (or (mastNode.dirty H0 node) (= (mastNode.source H0 node) 0))) (or (and (mastNode.shared H node) (not (mastNode.dirty H node)) (not (= (mastNode.source H node) 0)) (= (deref.Bytes H (mastNode.source H node)) result0)) (and (not (isNil cache)) (isDurable H (ckey persist result0)) (= (mastNode.shared H node) (mastNode.shared H0 node)))))
 //@ ensures names [T3] (=> (and (= err anil) (or (mastNode.dirty H0 node) (= (mastNode.source H0 node) 0))) (forall ((i Int)) (! (=> (and (<= 0 i) (< i (nlinks H node))) (not (isPtr (LinkAt H node i)))) :pattern ((LinkAt H node i)))))
 //@ ensures sharedclean [C02 C11 C13] (SharedClean H)
 //@ ensures mono [C03] (forall ((k Bytes)) (! (=> (isDurable H0 k) (isDurable H k)) :pattern ((isDurable H k))))
